@@ -54,7 +54,7 @@ pub fn machine_case(
 
 pub fn run(opts: &Opts) -> i32 {
     let mut sink = Sink::new(&opts.out);
-    let fuel: u64 = if opts.thorough() { 3_000_000 } else { 300_000 };
+    let fuel: u64 = if opts.thorough() { 1_000_000 } else { 300_000 };
     // (1) every repository program
     let files = corpus::files();
     let results = par_map(files, n_threads(), CompilerSession::default, move |session, path| {
@@ -113,7 +113,7 @@ pub fn run(opts: &Opts) -> i32 {
     // data, records, packages - which the generated core language does not.
     if !opts.rest.iter().any(|a| a == "--skip-corpus-mutants") {
         let mut rng = Rng::new(opts.seed ^ 0xC01B);
-        let per_file = if opts.thorough() { 60 } else { 4 };
+        let per_file = if opts.thorough() { 20 } else { 4 };
         let mut jobs: Vec<(std::path::PathBuf, String)> = Vec::new();
         for (path, text) in corpus::texts() {
             if !executables.contains(&path) {
@@ -294,7 +294,7 @@ pub fn run(opts: &Opts) -> i32 {
 pub fn generated(opts: &Opts, sink: &mut Sink) {
     use crate::zcore::{Gen, mutate};
     let mut rng = Rng::new(opts.seed ^ 0xC01);
-    let n = if opts.thorough() { 30_000 } else { 1_500 };
+    let n = if opts.thorough() { 12_000 } else { 1_500 };
     let fuel: u64 = 200_000;
     let mut jobs: Vec<(usize, String, String, String)> = Vec::new(); // (index, kind, source, request)
     let mut features: std::collections::BTreeMap<&'static str, u64> = Default::default();
